@@ -17,7 +17,7 @@ CASH = Cash()
 def spaces():
     """name -> (factory, in-space actions, malformed actions, denote(action)->dict sym->value, measure)"""
     out = {}
-    for cname, clist in (("nocash", [A, B]), ("cashfirst", [CASH, A, B]), ("cashlast", [A, B, CASH])):
+    for cname, clist in (("nocash", [A, B]), ("cashfirst", [CASH, A, B]), ("cashlast", [A, B, CASH]), ("cashmid", [A, CASH, B])):
         n = len(clist)
 
         def vec(a, b, clist=clist):
@@ -32,7 +32,7 @@ def spaces():
                 g = vec(0.25, 0.25)
                 g[[isinstance(c, Cash) for c in clist].index(True)] = 0.5   # a cash entry must be ignored
                 good.append(g)
-            bad = [np.ones(n - 1) * 0.5, np.ones(n + 1) * 0.5, np.ones((1, n)) * 0.5, vec(np.nextafter(hi, 9.0), 0.0),
+            bad = [np.ones(n - 1) * 0.5, np.ones(n + 1) * 0.5, np.ones((1, n)) * 0.5, np.ones((n, 1)) * 0.5, vec(np.nextafter(hi, 9.0), 0.0),
                    vec(hi + 1.0, 0.0), vec(0.0, lo - 1.0), vec(np.nextafter(lo, -9.0), 0.5), vec(np.nan, 0.5),
                    vec(np.inf, 0.0), vec(0.0, -np.inf), None, "abc", 0.5, [0.5] * (n + 2)]
             if cname != "nocash":
@@ -221,8 +221,8 @@ def run(tier, **kw):
     rep.set("distinct_nontrivial", len(nt))
     rep.set("spaces", sorted(SPACES))
     rep.set("exhaustive", True)
-    rep.set("rule", "one evaluation = one 4-step episode; enumerated: 10 spaces (Box [0,1], Box [-1,1.5], whole-lot contract Box [0,8], Discrete with 4 allocations; "
-                    "contract lists without cash / cash first / cash last) x delay {0,1,2} x every malformed action of the space's menu (wrong length, 2-D, out of "
+    rep.set("rule", "one evaluation = one 4-step episode; enumerated: 13 spaces (Box [0,1], Box [-1,1.5], whole-lot contract Box [0,8], Discrete with 4 allocations; "
+                    "contract lists without cash / cash first / cash last / cash in the middle) x delay {0,1,2} x every malformed action of the space's menu (wrong length, 2-D, out of "
                     "bounds by one ulp and by 1, NaN, +-inf, None, string, scalar; discrete: -1, n, 1.5, 1e9, None, string, array, NaN, 2.0) injected at every step "
                     "position, in-space filler actions elsewhere, plus fault-free episodes; non-trivial = distinct case in which a call raised")
     rep.set("samples", [{"space": "box01-cashfirst", "delay": 1, "bad": 3, "pos": 2, "filler": 0,
